@@ -3,7 +3,10 @@ package p9p
 // C09 (client link) - each client Session method emits exactly the T-message
 // with the caller's arguments and unpacks the R-message into exactly its results.
 
-import "io"
+import (
+	"context"
+	"io"
+)
 
 func vC09Client(sh *vShape) {
 	op := ndChoice("op", 11)
@@ -158,3 +161,64 @@ func vC09Client(sh *vShape) {
 
 func VerifC09_ClientQuick()    { vC09Client(&vShapeTiny) }
 func VerifC09_ClientThorough() { vC09Client(&vShapeQuick) }
+
+// ---- end to end: CSession <-> ServeConn(SSession(recording session)) over an
+// in-memory pipe; msize negotiated by the real handshake.
+func vC09EndToEnd(ops []int) {
+	ca, cb := newVPipe()
+	rec := &vRecSession{msize: DefaultMSize, lazy: true, sh: &vShapeTiny, nmax: 3}
+	ctx, cancel := context.WithCancel(vBG)
+	defer cancel()
+	srvDone := make(chan error, 1)
+	go func() { srvDone <- ServeConn(ctx, cb, SSession(rec)) }()
+	cs, err := CSession(ctx, ca)
+	vAssert(err == nil, "C09: the handshake succeeds")
+	if err != nil {
+		return
+	}
+	msize, ver := cs.Version()
+	vAssert(msize == DefaultMSize && ver == DefaultVersion, "C09: both ends agree on msize and version")
+	op := ops[ndChoice("op", len(ops))]
+	fid := Fid(ndU32("a.fid"))
+	off := ndI64("a.off")
+	ncalls := len(rec.calls)
+	switch op {
+	case 0:
+		q, err := cs.Attach(vBG, fid, Fid(ndU32("a.afid")), "u", ndString("a.aname", 1))
+		vAssert(err == nil && len(rec.calls) == ncalls+1, "C09: attach reaches the session once")
+		c := rec.calls[ncalls]
+		vAssert(c.op == "attach" && c.fid == fid, "C09: with the caller's arguments")
+		vAssert(vQidEq(q, rec.rqid), "C09: and returns what the session returned")
+	case 1:
+		p := ndBytes("a.data", 2)
+		n, err := cs.Write(vBG, fid, p, off)
+		c := rec.calls[ncalls]
+		vAssert(c.op == "write" && c.fid == fid && c.offset == off && vEqBytes(c.data, p), "C09: write delivers fid, offset (64 bits) and data")
+		vAssert(n == rec.rn, "C09: write returns the session's count")
+		_ = err
+	case 2:
+		p := make([]byte, 3)
+		n, err := cs.Read(vBG, fid, p, off)
+		c := rec.calls[ncalls]
+		vAssert(c.op == "read" && c.fid == fid && c.offset == off && c.plen == 3, "C09: read delivers fid, offset and count")
+		want := rec.rn
+		if want > 3 {
+			want = 3
+		}
+		vAssert(n == want && vEqBytes(p[:n], rec.rdata[:n]), "C09: read returns the session's bytes")
+		_ = err
+	case 3:
+		rec.fail = true
+		rec.rerr = MessageRerror{Ename: ndString("etext", 2)}
+		err := cs.Clunk(vBG, fid)
+		re, ok := err.(MessageRerror)
+		vAssert(ok && vEqStr(re.Ename, rec.rerr.(MessageRerror).Ename), "C09: the session's error reaches the caller by its text")
+	case 4:
+		d, err := cs.Stat(vBG, fid)
+		vAssert(err == nil && vDirEq(d, rec.rdir), "C09: stat returns the session's Dir (whole seconds)")
+	}
+	vReach("c09.e2e")
+}
+
+func VerifC09_EndToEndQuick()    { vC09EndToEnd([]int{1, 3}) }
+func VerifC09_EndToEndThorough() { vC09EndToEnd([]int{0, 1, 2, 3, 4}) }
